@@ -58,7 +58,7 @@ def make_records(lengths):
 def ref_file(cfg):
     tr = cfg['trailer']
     recs = make_records(cfg['lengths'])
-    return L.build_file(recs, cfg['maxlen'], bool(tr[0]), 7 if tr[1] else None, bool(tr[2]), cfg['tif']) + (recs,)
+    return L.build_file(recs, cfg['maxlen'], bool(tr[0]), cfg.get('filenum', 7) if tr[1] else None, bool(tr[2]), cfg['tif']) + (recs,)
 
 
 # ------------------------------------------------------------------------------------------------
@@ -71,7 +71,7 @@ def check_writer(cfg):
     bad = []
     out = io.BytesIO()
     try:
-        prt = PhysRec.PhysRecTail(hasRecNum=bool(tr[0]), fileNum=7 if tr[1] else None, hasCheckSum=bool(tr[2]))
+        prt = PhysRec.PhysRecTail(hasRecNum=bool(tr[0]), fileNum=cfg.get('filenum', 7) if tr[1] else None, hasCheckSum=bool(tr[2]))
         fw = File.FileWrite(out, 'x', keepGoing=False, hasTif=cfg['tif'] == 'normal', thePrLen=cfg['maxlen'], thePrt=prt)
         tells = [fw.write(r) for r in recs]
         fw._prh.tif and fw._prh.tif.close(fw._prh.stream)   # EOF markers as close() writes them; keep the BytesIO open
@@ -150,7 +150,7 @@ class System:
     def canon(self):
         p = self.fr._prh
         return (self.m, p.stream.tell(), p._ldIndex, p._ldTell, p._mustReadHead, p.isEOF, p.tif.previousTell is None,
-                p.prAttr & 3, p.ldLen)
+                p.prAttr & 3, p.ldLen, bfs.generic_state(p, depth=2, skip=('recNum', 'fileNum', 'checksum', 'fileId')))
 
 
 def model_read(system, n):
@@ -276,6 +276,11 @@ def gen_writer_cfgs(tier):
             for tif in (None, 'normal'):
                 for lengths in lists:
                     yield {'trailer': list(tr), 'maxlen': maxlen, 'tif': tif, 'lengths': lengths}
+                if tr[1]:
+                    # the file number is a value, not a flag: its boundary values 0 and 65535 are legal
+                    for filenum in (0, 1, 65535):
+                        for lengths in lists[:12]:
+                            yield {'trailer': list(tr), 'maxlen': maxlen, 'tif': tif, 'lengths': lengths, 'filenum': filenum}
 
 
 def gen_reader_cfgs(tier):
